@@ -7,6 +7,7 @@
 //!   log=<path>            where to append the JSON line (default $MSAT_LOG, else none)
 //!   state=<dir>           directory holding the invocation counter (default $MSAT_STATE)
 //!   pad=<bytes>[,after]   comment volume before (default) or after the verdict
+//!   errpad=<bytes>[,after] diagnostic volume on *stderr* before (default) or after the reply on stdout
 //!   vsplit=<k>            literals per `v` line (0 = all on one line)
 //!   crlf                  CRLF line ends
 //!   mode=early-out        write the padding before reading stdin
@@ -16,7 +17,8 @@
 //!   fault=<kind>@<k>      misbehave at invocation number k (1-based; `*` = always):
 //!                         exit-silent | status-only | truncated-model | truncated-model-midnumber |
 //!                         garbage-line | garbage-after-reply | unknown-status | wrong-var | double-status |
-//!                         double-status-unsat-first | crash | exit-code
+//!                         double-status-unsat-first | crash | exit-code | zero-mid-model |
+//!                         non-utf8-comment (an honest reply preceded by a comment line that is not UTF-8)
 //!   lenient               accept a malformed instance (ignore header mismatches) instead of failing
 
 use std::io::{Read, Write};
@@ -27,6 +29,8 @@ struct Opts {
     state: Option<String>,
     pad: usize,
     pad_after: bool,
+    errpad: usize,
+    errpad_after: bool,
     vsplit: usize,
     crlf: bool,
     mode: String,
@@ -41,6 +45,8 @@ fn parse_opts() -> Opts {
         state: std::env::var("MSAT_STATE").ok(),
         pad: 0,
         pad_after: false,
+        errpad: 0,
+        errpad_after: false,
         vsplit: 0,
         crlf: false,
         mode: "normal".to_string(),
@@ -60,6 +66,13 @@ fn parse_opts() -> Opts {
             };
             o.pad = n.parse().unwrap_or(0);
             o.pad_after = rest == "after";
+        } else if let Some(v) = a.strip_prefix("errpad=") {
+            let (n, rest) = match v.split_once(',') {
+                Some((n, r)) => (n, r),
+                None => (v, "before"),
+            };
+            o.errpad = n.parse().unwrap_or(0);
+            o.errpad_after = rest == "after";
         } else if let Some(v) = a.strip_prefix("vsplit=") {
             o.vsplit = v.parse().unwrap_or(0);
         } else if a == "crlf" {
@@ -394,7 +407,7 @@ fn main() {
             // fault degrades to "no reply" so that msat fails to decide but never lies
             let needs_model = matches!(
                 k,
-                "status-only" | "truncated-model" | "truncated-model-midnumber" | "wrong-var" | "crash"
+                "status-only" | "truncated-model" | "truncated-model-midnumber" | "wrong-var" | "crash" | "zero-mid-model"
             );
             let k = if needs_model && verdict != Some(true) {
                 kind = format!("fault:{}-degraded-to-silence", k);
@@ -456,6 +469,35 @@ fn main() {
                     let lits: Vec<i32> = if model.is_empty() { (1..=n_vars.max(1) as i32).collect() } else { model.clone() };
                     reply.extend_from_slice(v_lines(&lits, true).as_bytes());
                 }
+                "zero-mid-model" => {
+                    // a value line with a terminating zero in its middle and another at its end
+                    reply.extend_from_slice(status_line(true).as_bytes());
+                    let lits: Vec<i32> = if model.is_empty() { (1..=n_vars.max(2) as i32).collect() } else { model.clone() };
+                    let cut = (lits.len() / 2).max(1).min(lits.len());
+                    let mut line = String::from("v");
+                    for l in &lits[..cut] {
+                        line.push_str(&format!(" {}", l));
+                    }
+                    line.push_str(" 0");
+                    for l in &lits[cut..] {
+                        line.push_str(&format!(" {}", l));
+                    }
+                    line.push_str(" 0");
+                    line.push_str(eol);
+                    reply.extend_from_slice(line.as_bytes());
+                }
+                "non-utf8-comment" => {
+                    reply.extend_from_slice(b"c solver banner \xff\xfe\xc3\x28 build");
+                    reply.extend_from_slice(eol.as_bytes());
+                    match verdict {
+                        Some(true) => {
+                            reply.extend_from_slice(status_line(true).as_bytes());
+                            reply.extend_from_slice(v_lines(&model, true).as_bytes());
+                        }
+                        Some(false) => reply.extend_from_slice(status_line(false).as_bytes()),
+                        None => reply.extend_from_slice(format!("s UNKNOWN{}", eol).as_bytes()),
+                    }
+                }
                 "unknown-status" => reply.extend_from_slice(format!("s UNKNOWN{}", eol).as_bytes()),
                 "wrong-var" => {
                     reply.extend_from_slice(status_line(true).as_bytes());
@@ -493,8 +535,27 @@ fn main() {
         written + reply.len(),
         verdict_name,
     );
+    let err_volume = |n: usize| {
+        // a verbose solver's diagnostics: lines of 64 bytes on stderr (blocks if nobody drains it)
+        let mut e = std::io::stderr();
+        let line = [b'#'; 63];
+        let mut left = n;
+        while left > 0 {
+            let k = left.min(64);
+            let _ = e.write_all(&line[..k - 1]);
+            let _ = e.write_all(b"\n");
+            left -= k;
+        }
+        let _ = e.flush();
+    };
+    if o.errpad > 0 && !o.errpad_after {
+        err_volume(o.errpad);
+    }
     let _ = emit(&mut out, &reply, &mut written, &mut t_first_write);
     let _ = out.flush();
+    if o.errpad > 0 && o.errpad_after {
+        err_volume(o.errpad);
+    }
     match fault_now.as_deref() {
         Some("crash") => {
             unsafe {
